@@ -1297,6 +1297,10 @@ func snapshot(vals []any) string {
 		switch tv := v.(type) {
 		case []byte:
 			b.WriteString(string(tv))
+		case *sim.SimWriter:
+			// what the caller's io.Writer holds (read the way the caller would: without asking anybody)
+			fmt.Fprintf(&b, "%d calls:", len(tv.Calls))
+			b.Write(tv.Buf)
 		case exprText:
 			b.WriteString(tv.String())
 		case keptErr:
